@@ -82,6 +82,7 @@ fn c11_1a_wait_orders_enqueue_unlock_park_relock() {
 }
 
 //@ obligation: C11.2a
+//@ property: C11 C09
 //@ kind: K3
 //@ complete: yes
 //@ functions: Condvar::wait_impl
@@ -128,6 +129,7 @@ fn c11_2a_aborted_wait_passes_the_notification_on_once() {
 }
 
 //@ obligation: C11.2b
+//@ property: C11 C09
 //@ kind: K3
 //@ complete: yes
 //@ functions: Condvar::wait, Condvar::wait_timeout
